@@ -581,6 +581,25 @@ def print_flush_none(x: int, b: bool) -> bool:
           _same_print(lambda B, f: B(x, sep=None, end=None, file=f)))
 
 
+def _redirected(B, x):
+  import contextlib
+  buf = io.StringIO()
+  with contextlib.redirect_stdout(buf):
+    B('v', x)
+    B(x, end='!')
+    B()
+  return buf.getvalue()
+
+
+def print_to_replaced_stdout(x: int) -> bool:
+  """
+  pre: -11 <= x <= 11
+  post: _
+  """
+  # no file= argument: the stream is whatever sys.stdout is AT THE CALL
+  return _redirected(print, x) == _redirected(py_builtins.overload_of(print), x)
+
+
 def print_bad_sep(x: int) -> bool:
   """
   pre: -11 <= x <= 11
